@@ -28,3 +28,6 @@ func VerifSmallRef(x byte) Ref {
 	d[0] = x
 	return Ref{d}
 }
+
+// VerifDigestByte returns byte i of the ref's digest.
+func (r Ref) VerifDigestByte(i int) byte { return r.digest.bytes()[i] }
